@@ -1314,6 +1314,21 @@ class Interp:
                 return r
         # local function with a body
         f = self.F.fns.get(callee)
+        if f is not None and "body" in f and f.get("in_trait") and isinstance(recv, Var):
+            # a provided trait method: the receiver's own impl may override it
+            t = self.type_of(recv)
+            if t:
+                imp = "<%s as %s>::%s" % (norm(t), norm(f["in_trait"]), name)
+                if imp not in self._dyn_cache:
+                    g = self.F.fns.get(imp)
+                    if g is None:
+                        for p_, ff in self.F.fns.items():
+                            if p_.startswith("<") and p_.endswith(">::" + name) and norm(p_) == imp:
+                                g = ff
+                                break
+                    self._dyn_cache[imp] = g["path"] if g is not None and "body" in g else None
+                if self._dyn_cache[imp] is not None:
+                    return self.call_fn(self._dyn_cache[imp], [recv] + args)
         if f is not None and "body" in f:
             recv2 = self.coerce_recv(recv, callee) if isinstance(recv, Var) else recv
             return self.call_fn(callee, [recv2] + args)
